@@ -149,20 +149,13 @@ def key_agreement(ctx, rule):
                 base = q.shape(q.arg_expr(b, t, 0))
                 if "tokens" not in base and path != NEW:
                     continue
-                cl = None
-                for x in q.arg_expr(b, t, len(t["args"]) - 1).walk():
-                    if isinstance(x, Agg) and x.ak == "closure":
-                        cl = ctx.facts.body(x.closure)
-                if cl is None:
-                    ctx.bad(rule, path, "key-closure", "the ordering key is an inline closure", ctx.site(b, bi))
-                    continue
+                ksh = q.shape(q.arg_expr(b, t, len(t["args"]) - 1))
                 n += 1
-                rets = closure_ret_shape(cl)
-                ctx.check(rets == [KEY], rule, cl.path, "key=(dst_line,dst_col)", "the %s orders tokens by (generated line, generated column)" % who, ctx.site(cl), detail=str(rets))
+                ctx.check(ksh == "\u03bb(%s)" % KEY.replace("arg2", "p1"), rule, path, "key=(dst_line,dst_col)", "the %s orders tokens by (generated line, generated column)" % who, ctx.site(b, bi), detail=ksh)
     ctx.floor(rule, "types::SourceMap", "ordering-key closures", n, 3)
     lb = ctx.body(LOOKUP)
     # every token lookup_token hands out is the one greatest_lower_bound selected
-    GL = "try(utils::greatest_lower_bound(arg1.tokens,tuple(arg2,arg3),closure:lookup_token::{closure#0}))"
+    GL = "try(utils::greatest_lower_bound(arg1.tokens,tuple(arg2,arg3),\u03bb(%s)))" % KEY.replace("arg2", "p1")
     toks = [lb.expr_of_rvalue(s["rv"]) for bi, si, s, it in lb.locations() if not it and s["k"] == "assign" and s["rv"]["k"] == "agg" and s["rv"].get("adt") == "types::Token"]
     ok = len(toks) == 1 and q.shape(toks[0].field("raw")) == GL + ".1" and q.shape(toks[0].field("idx")) == GL + ".0" and q.shape(toks[0].field("sm")) == "arg1"
     ctx.check(ok, rule, LOOKUP, "result=glb", "the token returned by lookup_token is exactly the element (and index) greatest_lower_bound selected, on every path (no shortcut around the search)",
@@ -204,14 +197,13 @@ def glb_shape(ctx, rule):
     rets = [(bi, q.shape(b.expr_of_rvalue(s["rv"]) if s["k"] == "assign" else b.expr_of_call(s), roles)) for bi, si, s, it in b.locations()
             if ((not it and s["k"] == "assign" and s["place"]["l"] == 0 and not s["place"]["p"]) or (it and s["k"] == "call" and s["dest"]["l"] == 0 and not s["dest"]["p"]))]
     shapes = sorted(s for _, s in rets)
-    want_err = "Option::map(slice::get(arg1,try(usize::checked_sub(err(%s),1))),closure:greatest_lower_bound::{closure#0})" % BS
-    want_ok = "Option::map(slice::get(arg1,idx),closure:greatest_lower_bound::{closure#1})"
+    want_err = "Option::map(slice::get(arg1,try(usize::checked_sub(err(%s),1))),\u03bb(tuple(^err(%s),p1)))" % (BS, BS)
+    want_ok = "Option::map(slice::get(arg1,idx),\u03bb(tuple(^var:usize,p1)))"
     ctx.check(want_err in shapes, rule, fn, "err:pred", "without an exact match the element before the insertion point is returned (None when the insertion point is 0: checked_sub)", detail=str(shapes))
     ctx.check(want_ok in shapes, rule, fn, "ok:first-equal", "with an exact match the element at the walked-back index is returned", detail=str(shapes))
     others = [s for s in shapes if s not in (want_err, want_ok) and not s.startswith("FromResidual::from_residual")]
     ctx.check(not others, rule, fn, "no-other-result", "no other value is returned", detail=str(others))
-    c1 = ctx.facts.body("utils::greatest_lower_bound::{closure#1}", required=False)
-    ok = c1 is not None and closure_ret_shape(c1) == ["tuple(^var:usize,arg2)"]
+    ok = want_ok in shapes
     ctx.check(ok, rule, fn, "ok:pair", "the match is returned together with its index")
 
 
